@@ -103,6 +103,7 @@ def check(rep):
                 # interval rule
                 civ = [(int(rnd.uniform(max(1, mean - 2 * spread), mean + spread)), rnd.randrange(1, max(2, int(spread) + 2))) for _ in range(4)]
                 civ += [(int(mean + k * spread), max(1, int(0.5 * spread))) for k in (2.0, 2.6, 3.2, 4.0)]
+                civ += [(0, 1), (0, max(1, int(mean))), (0, max(2, int(mean + spread)))]      # the first interval of a block starts at 0
                 for a_, w_ in civ:
                     b_ = a_ + w_
                     if b_ >= ks[-1]:
